@@ -134,34 +134,36 @@ pub fn check_program(run: &Run, prog: &[OpCode], heap_name: &str, heap: &BTreeMa
                 return "panic";
             }
         }
-        // the entry point consensus uses: Covenant::execute(transaction, environment) - on the environment heap it must agree as
-        // well, whatever this thread has executed before (the enumeration runs thousands of programs, failing ones among them, one
-        // after the other on every worker)
-        if heap_name == "env" {
-            let e = sample_env();
-            let real_env = CovenantEnv { parent_coinid: e.parent_coinid, parent_cdh: e.parent_cdh.clone(), spender_index: e.spender_index, last_header: e.last_header };
-            let tx = sample_tx();
-            match guard(|| cov.execute(&tx, Some(real_env))) {
-                Ok(v) => {
-                    let v = v.map(|v| RV::from_real(&v));
-                    if v != r.result {
-                        run.violation(
-                            "C10",
-                            format!("execute-differs-from-stepped/last={}", prog.last().map(opname).unwrap_or_default()),
-                            format!("program [{}]: Covenant::execute {:?} stepped/reference {:?}", prog_str(prog), v.map(|x| x.show()), r.result.as_ref().map(|x| x.show())),
-                            replay,
-                        );
-                        return "execute-differs";
-                    }
+    }
+    // the entry point consensus uses: Covenant::execute(transaction, environment) - on the environment heap it must agree as
+    // well, whatever this thread has executed before (the enumeration runs thousands of programs, failing ones among them, one
+    // after the other on every worker)
+    // (programs of up to three instructions: building the environment heap costs more than running them)
+    if heap_name == "env" && prog.len() <= 3 {
+        let cov = Covenant::from_ops(prog);
+        let e = sample_env();
+        let real_env = CovenantEnv { parent_coinid: e.parent_coinid, parent_cdh: e.parent_cdh.clone(), spender_index: e.spender_index, last_header: e.last_header };
+        let tx = sample_tx();
+        match guard(|| cov.execute(&tx, Some(real_env))) {
+            Ok(v) => {
+                let v = v.map(|v| RV::from_real(&v));
+                if v != r.result {
+                    run.violation(
+                        "C10",
+                        format!("execute-differs-from-stepped/last={}", prog.last().map(opname).unwrap_or_default()),
+                        format!("program [{}]: Covenant::execute {:?} stepped/reference {:?}", prog_str(prog), v.map(|x| x.show()), r.result.as_ref().map(|x| x.show())),
+                        replay,
+                    );
+                    return "execute-differs";
                 }
-                Err(p) => {
-                    run.violation("C10", format!("execute-panics/{}", p.class()), format!("program [{}]: {}", prog_str(prog), p.msg), replay);
-                    return "panic";
-                }
+            }
+            Err(p) => {
+                run.violation("C10", format!("execute-panics/{}", p.class()), format!("program [{}]: {}", prog_str(prog), p.msg), replay);
+                return "panic";
             }
         }
     }
-    if r.result.is_some() {
+        if r.result.is_some() {
         "value"
     } else {
         "fail"
